@@ -1343,7 +1343,9 @@ func coordPlan() coordTierPlan {
 		for _, part := range strings.Split(v, ",") {
 			f := strings.Split(part, ":")
 			d, _ := strconv.Atoi(f[1])
-			plan.Runs = append(plan.Runs, coordDefaultCfg(f[0], d))
+			c := coordDefaultCfg(f[0], d)
+			c.Resub = len(f) > 2 && f[2] == "resub"
+			plan.Runs = append(plan.Runs, c)
 		}
 		return plan
 	}
@@ -1579,6 +1581,16 @@ func coordRunReplay(t *testing.T, rep *vh.Report, mk func() coordOracle, rp coor
 		rep.Sample(map[string]any{"replayed": coordEvStrings(rp.Events), "trace": trace})
 	})
 	rep.Cap("replay of a single history")
+}
+
+// coordOffsetsDiff returns the first partition whose committed offset differs.
+func coordOffsetsDiff(a, b map[string]int64) string {
+	for _, tp := range coordAllTPs {
+		if a[tp] != b[tp] {
+			return tp
+		}
+	}
+	return ""
 }
 
 // coordViol is a small helper for oracles.
